@@ -15,7 +15,7 @@ from .. import cover, gen
 LEVEL = 'exploration'
 JOBS = {'quick': 4, 'thorough': 16}
 REQUIRED_MONITORS = ('alignment_postcondition', 'repeat_bit_identical', 'caller_objects_unchanged')
-REQUIRED_CLASSES = ('session:re-aligned', 'session:molecule-replaced', 'session:multi-residue', 'sizes:start-smaller', 'sizes:start-larger', 'sizes:tie', 'mobile:tree', 'mobile:cyclic',
+REQUIRED_CLASSES = ('mobile:collinear-neighbours', 'session:re-aligned', 'session:molecule-replaced', 'session:multi-residue', 'sizes:start-smaller', 'sizes:start-larger', 'sizes:tie', 'mobile:tree', 'mobile:cyclic',
                     'mobile:one-atom', 'hydrogens:ignored', 'hydrogens:kept', 'restraints:none', 'restraints:some',
                     'types:(0,)', 'types:(1,)', 'types:(2,)', 'types:(0, 1)', 'types:default', 'shipped', 'end:one-atom')
 RULE = ('alignments over (start, end) molecule pairs: sizes 1..40 in both orders and ties, mobile molecule a random tree or a '
@@ -57,7 +57,10 @@ def cases(ctx):
         yield {'kind': 'session', 'i': i}
 
 
-def make_mol(rng, name, n, cyclic, hydrogens, prefix):
+made_fan = []
+
+
+def make_mol(rng, name, n, cyclic, hydrogens, prefix, fan=False):
     if n == 1:
         edges = []
     elif cyclic and n >= 3:
@@ -65,6 +68,23 @@ def make_mol(rng, name, n, cyclic, hydrogens, prefix):
     else:
         edges = gen.random_tree(rng, n)
     pos = gen.embed_graph(rng, n, edges) if n > 1 else rng.normal(size=(1, 3))
+    if fan and n >= 4:
+        # idealised geometry: an atom whose bonded atoms all lie on one straight line (a "fan", as typed by hand for a
+        # coarse-grained model; axis-parallel half of the time).  Single-atom moves of that atom have no defined direction.
+        adj = gen.adjacency(n, edges)
+        hubs = [a for a in range(n) if len(adj[a]) >= 3]
+        if hubs:
+            c = hubs[int(rng.integers(0, len(hubs)))]
+            u = np.eye(3)[int(rng.integers(0, 3))] if rng.random() < 0.5 else rng.normal(size=3)
+            u = u / np.linalg.norm(u)
+            v = np.cross(u, rng.normal(size=3))
+            v = 0.25 * v / np.linalg.norm(v)
+            for k, nb in enumerate(sorted(adj[c])):
+                pos[nb] = pos[c] + v + (k - 1) * 0.2 * u
+            if gen.min_pair_distance(pos) < 1e-3:
+                pos = gen.embed_graph(rng, n, edges)
+            else:
+                made_fan.append(True)
     pos = pos + rng.normal(size=3) * 5
     hyd = set()
     if hydrogens and n > 1:
@@ -216,8 +236,12 @@ def run_gen(ctx, case):
     nm = n1 if n1 < n2 else n2
     cyc_mobile = nm >= 3 and rng.random() < 0.3
     hyd = rng.random() < 0.6
-    start, es, hs = make_mol(rng, 'MOLA', n1, cyc_mobile if n1 < n2 else rng.random() < 0.3, hyd, 'B')
-    end, ee, he = make_mol(rng, 'MOLA', n2, cyc_mobile if n1 >= n2 else rng.random() < 0.3, hyd, 'C')
+    fan = i % 6 == 5
+    del made_fan[:]
+    start, es, hs = make_mol(rng, 'MOLA', n1, cyc_mobile if n1 < n2 else rng.random() < 0.3, hyd, 'B', fan=fan and n1 < n2)
+    end, ee, he = make_mol(rng, 'MOLA', n2, cyc_mobile if n1 >= n2 else rng.random() < 0.3, hyd, 'C', fan=fan and n1 >= n2)
+    if made_fan:
+        ctx.hit('mobile:collinear-neighbours')
     cyc_s = len(es) > n1 - 1
     cyc_e = len(ee) > n2 - 1
     admissible = [t for t in TYPES if t is None or (2 not in t or nm >= 2)]
